@@ -63,9 +63,12 @@ impl EventLog {
         Ok(events)
     }
 
-    /// Highest `seq` of the given stream among the frames in the last `max_bytes` of the log
-    /// (`None` when the tail holds no frame of that stream). Lets callers reconcile a cache that
-    /// may be one frame behind after a crash without replaying the whole log.
+    /// Highest `seq` of the given stream, found by scanning the log backwards from its end
+    /// (`None` when the log holds no frame of that stream). The scan starts with the last
+    /// `max_bytes` and widens the window until it holds a frame of the stream or reaches the start
+    /// of the log: other streams may have written any amount since the stream's last frame. Lets
+    /// callers reconcile a cache that may be one frame behind after a crash without replaying the
+    /// whole log in the common case.
     pub fn last_seq_in_tail(
         &self,
         stream_kind: StreamKind,
@@ -74,28 +77,34 @@ impl EventLog {
     ) -> io::Result<Option<u64>> {
         let mut file = File::open(&self.path)?;
         let len = file.metadata()?.len();
-        let start = len.saturating_sub(max_bytes);
-        file.seek(SeekFrom::Start(start))?;
-        let mut bytes = Vec::new();
-        file.read_to_end(&mut bytes)?;
-        let mut lines = bytes.split(|byte| *byte == b'\n');
-        if start > 0 {
-            // The window starts inside a line.
-            let _ = lines.next();
-        }
-        let mut last: Option<u64> = None;
-        for line in lines {
-            if line.is_empty() {
-                continue;
+        let mut window = max_bytes.max(1);
+        loop {
+            let start = len.saturating_sub(window);
+            file.seek(SeekFrom::Start(start))?;
+            let mut bytes = Vec::new();
+            file.read_to_end(&mut bytes)?;
+            let mut lines = bytes.split(|byte| *byte == b'\n');
+            if start > 0 {
+                // The window starts inside a line.
+                let _ = lines.next();
             }
-            let Ok(event) = serde_json::from_slice::<Event>(line) else {
-                continue;
-            };
-            if event.stream_kind() == stream_kind && event.stream_id() == stream_id {
-                last = Some(last.map_or(event.seq, |seq| seq.max(event.seq)));
+            let mut last: Option<u64> = None;
+            for line in lines {
+                if line.is_empty() {
+                    continue;
+                }
+                let Ok(event) = serde_json::from_slice::<Event>(line) else {
+                    continue;
+                };
+                if event.stream_kind() == stream_kind && event.stream_id() == stream_id {
+                    last = Some(last.map_or(event.seq, |seq| seq.max(event.seq)));
+                }
             }
+            if last.is_some() || start == 0 {
+                return Ok(last);
+            }
+            window = window.saturating_mul(8);
         }
-        Ok(last)
     }
 
     pub fn replay_validated(&self) -> io::Result<Vec<Event>> {
